@@ -171,6 +171,17 @@ func (c *Code) PrepareCharSetASCIIBitmaps() {
 	}
 }
 
+// UsesStartAnchor reports whether the program contains a \G anchor, whose meaning
+// depends on the position the search was started from.
+func (c *Code) UsesStartAnchor() bool {
+	for i := 0; i < len(c.Codes); i += opcodeSize(InstOp(c.Codes[i])) {
+		if InstOp(c.Codes[i])&Mask == Start {
+			return true
+		}
+	}
+	return false
+}
+
 func opcodeBacktracks(op InstOp) bool {
 	op &= Mask
 
